@@ -211,7 +211,10 @@ def points(ctx, n):
                         # ct_eq, ==, conditional_select(0 / 1), zeroize
                         E(vals.pt_add(pf, qf)), E(vals.pt_add(pf, qf)), E(vals.pt_add(pf, vals.pt_neg(qf))), E(vals.pt_add(pf, vals.pt_neg(qf))),
                         E(vals.pt_mul(s, pf)), E(vals.pt_mul(s, pf)), E(vals.pt_mul(s, pf)), E(vals.pt_mul(s, pf)),
-                        B(pf.a == qf.a), B(pf.a == qf.a), E(pf), E(qf), ref.ed_compress(ref.IDENT).hex()],
+                        B(pf.a == qf.a), B(pf.a == qf.a), E(pf), E(qf), ref.ed_compress(ref.IDENT).hex(),
+                        # EdwardsPoint += / -= SubgroupPoint (reference, value), &EdwardsPoint +- &SubgroupPoint
+                        E(vals.pt_add(pf, qf)), E(vals.pt_add(pf, qf)), E(vals.pt_add(pf, vals.pt_neg(qf))), E(vals.pt_add(pf, vals.pt_neg(qf))),
+                        E(vals.pt_add(pf, qf)), E(vals.pt_add(pf, vals.pt_neg(qf)))],
                 cls='ops:subgroup')
         if rng.random() < 0.3:
             # the same point twice (equality must hold between different internal representations: P and (P+Q)-Q)
@@ -221,8 +224,27 @@ def points(ctx, n):
                             ref.ed_compress(ref.B).hex(), E(vals.pt_mul(2, pf)), ref.ed_compress(ref.IDENT).hex(), E(pf),
                             E(vals.pt_mul(2, pf)), E(vals.pt_mul(2, pf)), ref.ed_compress(ref.IDENT).hex(), ref.ed_compress(ref.IDENT).hex(),
                             E(vals.pt_mul(s, pf)), E(vals.pt_mul(s, pf)), E(vals.pt_mul(s, pf)), E(vals.pt_mul(s, pf)),
-                            'T', 'T', E(pf), E(pf), ref.ed_compress(ref.IDENT).hex()],
+                            'T', 'T', E(pf), E(pf), ref.ed_compress(ref.IDENT).hex(),
+                            E(vals.pt_mul(2, pf)), E(vals.pt_mul(2, pf)), ref.ed_compress(ref.IDENT).hex(), ref.ed_compress(ref.IDENT).hex(),
+                            E(vals.pt_mul(2, pf)), ref.ed_compress(ref.IDENT).hex()],
                     cls='ops:subgroup')
+        # the trait view of points that are results of arithmetic (Z != 1), in particular of neutral elements obtained
+        # as P - P, 0*P, [8]T: is_identity and the other trait methods must not depend on the representation
+        ctx.block()
+        r0 = ctx.add('ed.sub', p.tok(), p.tok(), expect=pts.expect_ed(ref.IDENT), cls='ops:scaled')
+        r1 = ctx.add('ed.add', p.tok(), q.tok(), expect=pts.expect_ed(vals.pt_add(p, q).affine()), cls='ops:scaled')
+        pq = vals.pt_add(p, q)
+        idt = ref.ed_compress(ref.IDENT).hex()
+        ctx.add('gp.ed_ops', ctx.ref(r0, 1), q.tok(), cs(s),
+                expect=[idt, idt, E(q), E(vals.pt_neg(q)), idt, E(q), 'T', idt, ref.ed_compress(ref.B).hex()], cls='ops:scaled')
+        ctx.add('gp.ed_ops', ctx.ref(r1, 1), q.tok(), cs(s),
+                expect=[E(vals.pt_mul(2, pq)), E(vals.pt_neg(pq)), E(vals.pt_add(pq, q)), E(p), E(vals.pt_mul(s, pq)), E(vals.pt_add(pq, q)),
+                        B(pq.a == 0 and pq.j == 0), idt, ref.ed_compress(ref.B).hex()], cls='ops:scaled')
+        t8 = vals.Pt(0, rng.randrange(1, 8))
+        r2 = ctx.add('ed.mulcof', t8.tok(), expect=pts.expect_ed(ref.IDENT), cls='ops:scaled')
+        ctx.add('gp.ed_ops', ctx.ref(r2, 1), q.tok(), cs(s),
+                expect=[idt, idt, E(q), E(vals.pt_neg(q)), idt, E(q), 'T', idt, ref.ed_compress(ref.B).hex()], cls='ops:scaled')
+        ctx.block()
         R = lambda x: ref.ristretto_encode(x.affine()).hex()
         pe = p if p.j % 2 == 0 else vals.Pt(p.a, p.j - 1)
         qe = q if q.j % 2 == 0 else vals.Pt(q.a, q.j - 1)
